@@ -1,7 +1,7 @@
 """Mutation campaign (development tool, not a registered check).
 
   python -m harness.mutate gen  <out.jsonl> [file ...]     enumerate first-order mutants of the anchored source files
-  python -m harness.mutate run  <mutants.jsonl> <results.jsonl> [--jobs 12] [--limit N]
+  python -m harness.mutate run  <mutants.jsonl> <results.jsonl> [--jobs 12] [--limit N] [--survivors-of <results1.jsonl>]
   python -m harness.mutate one  '<mutant json>'             run one mutant in this process (used by `run`)
   python -m harness.mutate report <results.jsonl>
 
@@ -241,10 +241,14 @@ def run_mutant(k, m, timeout=420):
     return res
 
 
-def cmd_run(mfile, rfile, jobs, limit, shuffle_seed=1):
+def cmd_run(mfile, rfile, jobs, limit, shuffle_seed=1, survivors_of=None):
     from concurrent.futures import ThreadPoolExecutor
     import threading
     muts = [json.loads(l) for l in open(mfile)]
+    if survivors_of:
+        # second pass: the mutants nothing reported in the first pass, against the checks of all twenty properties
+        keep = {json.loads(l)['id'] for l in open(survivors_of) if not json.loads(l)['detected']}
+        muts = [dict(m, props=list(ORDER)) for m in muts if m['id'] in keep]
     done = set()
     if os.path.exists(rfile):
         for l in open(rfile):
@@ -301,6 +305,7 @@ if __name__ == '__main__':
             jobs = int(sys.argv[sys.argv.index('--jobs') + 1])
         if '--limit' in sys.argv:
             limit = int(sys.argv[sys.argv.index('--limit') + 1])
-        cmd_run(sys.argv[2], sys.argv[3], jobs, limit)
+        surv = sys.argv[sys.argv.index('--survivors-of') + 1] if '--survivors-of' in sys.argv else None
+        cmd_run(sys.argv[2], sys.argv[3], jobs, limit, survivors_of=surv)
     elif c == 'report':
         cmd_report(sys.argv[2])
